@@ -133,7 +133,7 @@ func genC01(r *Rnd, t Tier) *Case {
 		sc.Scripts = append(sc.Scripts, genScript(r, unit, r.Range(1, 5), pick(r, 0.2, 0.5, 0.8)))
 		op := Op{Kind: "exec", Script: i, Entry: r.Intn(8), Ctx: pick(r, CtxNone, CtxBackground, CtxValue, CtxCancel)}
 		if op.Ctx == CtxValue && r.P(0.5) {
-			op.CtxKey = pick(r, "k1", "k2")
+			op.CtxKey = pick(r, "k1", "k2", KeyEmpty)
 		}
 		ops = append(ops, op)
 		if r.P(0.4) {
@@ -356,7 +356,7 @@ func genC11(r *Rnd, t Tier) *Case {
 		sc.Scripts = append(sc.Scripts, genScript(r, unit, r.Range(1, 3), pick(r, 0.0, 0.3, 0.6)))
 		op := Op{Kind: "exec", Script: i, Entry: pick(r, EnGet, EnGetExec, EnGetAsync, EnGetExecAsync, EnRun), Ctx: pick(r, CtxNone, CtxBackground, CtxValue, CtxValue)}
 		if op.Ctx == CtxValue {
-			op.CtxKey = pick(r, "", "k1", "k2", "k3")
+			op.CtxKey = pick(r, "", "k1", "k2", "k3", KeyEmpty, KeyNonString)
 		}
 		ops = append(ops, op)
 	}
